@@ -276,9 +276,12 @@ def xmi_corruptions(data):
                 es[i].set('href', bad)
                 yield 'break-href', f'element {i} <{e.tag}> href={bad}', ser(r)
         if e.get(f'{{{XMI_NS}}}id') is not None:
-            r, es = fresh()
-            es[i].set(f'{{{XMI_NS}}}id', es[0].get(f'{{{XMI_NS}}}id'))
-            yield 'dup-id', f'element {i} takes the id of the root', ser(r)
+            other = next((x.get(f'{{{XMI_NS}}}id') for j, x in enumerate(els)
+                          if j != i and x.get(f'{{{XMI_NS}}}id') is not None), None)
+            if other is not None:
+                r, es = fresh()
+                es[i].set(f'{{{XMI_NS}}}id', other)
+                yield 'dup-id', f'element {i} takes the id of another element', ser(r)
             r, es = fresh()
             del es[i].attrib[f'{{{XMI_NS}}}id']
             yield 'remove-id', f'element {i} loses its id', ser(r)
@@ -391,15 +394,20 @@ def tracing_rset():
     from pyecore.resources.resource import URIConverter
 
     class TracingRS(ResourceSet):
+        """Records the tree of get_resource calls and, for every TOP-LEVEL get_resource /
+        remove_resource call, the content of rset.resources when it ends."""
+
         def __init__(self):
             super().__init__()
             self.trace_roots = []
+            self.oplog = []          # ('get', node, registry items) | ('remove', resource, registry items)
             self._stack = []
 
         def get_resource(self, uri, options=None, **kwargs):
             u = URIConverter.convert(URI(uri)) if isinstance(uri, str) else uri
             node = {'norm': u.normalize(), 'hit': u.normalize() in self.resources, 'ok': None, 'children': [],
                     'resource': None}
+            top = not self._stack
             (self._stack[-1]['children'] if self._stack else self.trace_roots).append(node)
             self._stack.append(node)
             try:
@@ -412,6 +420,13 @@ def tracing_rset():
                 raise
             finally:
                 self._stack.pop()
+                if top:
+                    self.oplog.append(('get', node, list(self.resources.items())))
+
+        def remove_resource(self, resource):
+            super().remove_resource(resource)
+            if not self._stack:
+                self.oplog.append(('remove', resource, list(self.resources.items())))
     return TracingRS()
 
 
@@ -740,15 +755,15 @@ def _first_dump_diff(a, b):
     return '?'
 
 
-def compare_with_model(rs, model, res):
-    """Replay the traced top-level calls on the registry machine; compare after every call."""
+def compare_with_model(rs, model, res=None):
+    """Replay the logged top-level calls on the registry machine (Model/ResourceSet.v); compare the
+    outcome, the identity of the returned resource and the whole registry after EVERY call."""
     keys = {}
 
     def intern(s):
         return keys.setdefault(s, len(keys) + 1)
-    # creation order of resources = order of non-hit trace nodes (pre-order)
-    rid_of_node = {}
-    counter = [0]
+    # creation order of resources = order of the non-hit trace nodes (pre-order over all calls)
+    rid_of_node, counter = {}, [0]
 
     def number(n):
         if not n['hit']:
@@ -756,21 +771,17 @@ def compare_with_model(rs, model, res):
             counter[0] += 1
         for c in n['children']:
             number(c)
-    toks = []
-    for n in rs.trace_roots:
-        number(n)
-        toks += [2, intern(n['norm'])] + script_tokens(n, intern)
-    ans = model.ask('rset', toks)
-    # resource object -> rid
-    rid = {}
+    rid = {}            # id(resource object) -> rid
 
     def collect(n):
         if n['resource'] is not None and id(n) in rid_of_node:
             rid[id(n['resource'])] = rid_of_node[id(n)]
         for c in n['children']:
             collect(c)
-    for n in rs.trace_roots:
-        collect(n)
+    for op in rs.oplog:
+        if op[0] == 'get':
+            number(op[1])
+            collect(op[1])
 
     def failed_rid(v):
         u = getattr(getattr(v, 'uri', None), 'normalize', lambda: None)()
@@ -784,48 +795,89 @@ def compare_with_model(rs, model, res):
         for n in rs.trace_roots:
             look(n)
         return found[-1] if found else -999
-    # the model's answers: per op  outcome rid n (k v)*
+    toks = []
+    for op in rs.oplog:
+        if op[0] == 'get':
+            toks += [2, intern(op[1]['norm'])] + script_tokens(op[1], intern)
+        else:
+            toks += [3, rid.get(id(op[1]), -999)]
+    ans = model.ask('rset', toks)
+    inv = None
     pos = 0
-    last = None
-    outcomes = []
-    for n in rs.trace_roots:
+    for k, op in enumerate(rs.oplog):
         if pos + 3 > len(ans):
-            return f'model answer too short: {ans}'
+            return f'model answer too short at call {k}: {ans[:40]}'
         oc, r, cnt = ans[pos], ans[pos + 1], ans[pos + 2]
         reg = [(ans[pos + 3 + 2 * i], ans[pos + 4 + 2 * i]) for i in range(cnt)]
         pos += 3 + 2 * cnt
-        outcomes.append((oc, r))
-        last = reg
-        want_oc = 0 if n['ok'] else 1
-        if oc != want_oc:
-            return f'outcome of get_resource({os.path.basename(n["norm"])}): model {oc} impl {want_oc}'
-        if n['ok'] and rid.get(id(n['resource'])) != r:
-            return f'identity of the returned resource: model rid {r}, impl rid {rid.get(id(n["resource"]))}'
-    impl_reg = [(intern(k), rid.get(id(v), failed_rid(v))) for k, v in rs.resources.items()]
-    if impl_reg != last:
-        inv = {v: k for k, v in keys.items()}
-        return ('final registry: model ' + str([(os.path.basename(inv.get(k, '?')), v) for k, v in last])
-                + ' impl ' + str([(os.path.basename(inv.get(k, '?')), v) for k, v in impl_reg]))
+        if op[0] == 'get':
+            n = op[1]
+            want_oc = 0 if n['ok'] else 1
+            if oc != want_oc:
+                return f'call {k} get_resource({os.path.basename(n["norm"])}): outcome model {oc} impl {want_oc}'
+            if n['ok'] and rid.get(id(n['resource'])) != r:
+                return (f'call {k} get_resource({os.path.basename(n["norm"])}): model returns resource {r}, '
+                        f'impl resource {rid.get(id(n["resource"]))}')
+        impl_reg = [(intern(kk), rid.get(id(v), failed_rid(v))) for kk, v in op[2]]
+        if impl_reg != reg:
+            inv = {v: kk for kk, v in keys.items()}
+            what = 'get_resource(' + os.path.basename(op[1]['norm']) + ')' if op[0] == 'get' else 'remove_resource'
+            return (f'registry after call {k} {what}: model '
+                    + str([(os.path.basename(inv.get(a, '?')), b) for a, b in reg])
+                    + ' impl ' + str([(os.path.basename(inv.get(a, '?')), b) for a, b in impl_reg]))
     return None
 
 
+def registry_scenario(env, model, rng, timeout):
+    """Intact documents only: loads with nested autoloads and alias entries, interleaved with
+    remove_resource, every call compared with the registry machine.  -> (n_calls, problems, corr)"""
+    from pyecore.resources import URI
+    fmt = env.fmt
+    with open(env.path(f'm2.{fmt}'), 'wb') as f:
+        f.write(env.files[f'main.{fmt}'])
+    rs = new_rset(env)
+    problems = []
+    names = [f'prior.{fmt}', f'm2.{fmt}', f'ext.{fmt}', f'main.{fmt}', f'absent.{fmt}']
+    try:
+        for step in range(10):
+            if step % 3 == 2 and rs.resources:
+                vals = list(rs.resources.values())
+                # prefer a resource that owns an alias key
+                multi = [v for v in vals if sum(1 for w in vals if w is v) > 1]
+                victim = rng.choice(multi or vals)
+                rs.remove_resource(victim)
+                if any(v is victim for v in rs.resources.values()):
+                    problems.append(('remove-left-entry', 'remove_resource left a key bound to the removed resource'))
+            else:
+                name = rng.choice(names)
+                try:
+                    watchdog(lambda: rs.get_resource(URI(env.path(name))), timeout)
+                except Hang:
+                    problems.append(('hang', f'get_resource({name}) on intact documents hangs'))
+                    break
+                except Exception:
+                    pass
+    finally:
+        os.remove(env.path(f'm2.{fmt}'))
+    return len(rs.oplog), problems, compare_with_model(rs, model)
+
+
 # ----------------------------------------------------------------------------
-
-# corruption kinds that can take away the object a reference denotes
-MISSING_TARGET = {'break-ref', 'break-href', 'remove-element', 'remove-id', 'rename-feature', 'dup-id'}
-
 
 def sig(clause, fmt, corruption, qualifier=None):
     """{property, clause, format, corruption kind}.  Two clauses name a root cause that does not depend
     on the particular token that was corrupted; their corruption field is a class:
       prior-resource-changed / opposite-end-only : 'any' (whatever makes the load fail AFTER it linked to
                                                    an object of another resource)
-      dangling-proxy                             : 'missing-target' for every kind that removes, renames
-                                                   or re-identifies the target of a reference"""
-    base = corruption[len('nested:'):] if corruption.startswith('nested:') else corruption
+      dangling-proxy                             : 'missing-target' for every corruption (each one can only
+                                                   leave a dangling proxy by taking the target of a reference
+                                                   away: a damaged fragment or id, an element removed, renamed,
+                                                   re-typed or replaced, the referenced document itself =
+                                                   nested:*); an INTACT document with a dangling proxy keeps
+                                                   corruption='intact' and is not a known finding"""
     if clause == 'prior-resource-changed' and qualifier == 'opposite-end-only':
         corruption = 'any'
-    elif clause == 'dangling-proxy' and base in MISSING_TARGET:
+    elif clause == 'dangling-proxy' and corruption != 'intact':
         corruption = 'missing-target'
     s = {'property': PID, 'clause': clause, 'format': fmt, 'corruption': corruption}
     if qualifier:
@@ -856,9 +908,9 @@ def run(ctx, out):
     timeout = 5.0
     stats = {'attempts': 0, 'raised': 0, 'returned': 0, 'hang': 0, 'by_kind': {}, 'outcome_by_kind': {},
              'prefix_attempts': 0, 'corruption_attempts': 0, 'model_calls': 0, 'with_nested_loads': 0,
-             'setup_failed': 0, 'docs': [], 'samples': [], 'distinct': set(), 'intact_not_loading': []}
-    n_specs, nmax, prefix_cap = (5, 5, 1500) if not thorough else (20, 7, 6000)
-    budget = time.time() + (42 if not thorough else 500)
+             'setup_failed': 0, 'registry_walk_calls': 0, 'docs': [], 'samples': [], 'distinct': set(), 'intact_not_loading': []}
+    n_specs, nmax, prefix_cap = (5, 5, 1200) if not thorough else (20, 7, 6000)
+    budget = time.time() + (38 if not thorough else 500)
     cut = False
     mm = make_mm()
 
@@ -917,6 +969,16 @@ def run(ctx, out):
                 if r['outcome'] != 'returned' and not r['setup_failed']:
                     stats['intact_not_loading'].append({'format': fmt, 'use_uuid': use_uuid, 'target': target, 'priors': priors})
                 record(env, target, full, priors, 'intact', 'the document as saved', info, r, full)
+            # registry walks on the intact documents (get_resource / remove_resource, aliases)
+            for _ in range(3):
+                ncalls, probs, corr = registry_scenario(env, model, rng, timeout)
+                stats['registry_walk_calls'] += ncalls
+                stats['model_calls'] += 1
+                for clause, msg in probs:
+                    out.fail(sig(clause, fmt, 'intact'), msg, make_case(env, main, full, [], 'intact', 'registry walk', info))
+                if corr:
+                    out.diff(f'registry machine vs impl on a registry walk ({fmt}): {corr}',
+                             make_case(env, main, full, [], 'intact', 'registry walk', info))
             # every prefix (stride 1 up to the cap, then strided)
             stride = 1 if len(full) <= prefix_cap else -(-len(full) // prefix_cap)
             for k in list(range(0, len(full), stride)) + [len(full.rstrip())]:
@@ -974,6 +1036,7 @@ def run(ctx, out):
         'attempts_by_corruption_kind': stats['by_kind'],
         'outcome_by_format_kind': stats['outcome_by_kind'],
         'attempts_with_nested_get_resource': stats['with_nested_loads'],
+        'registry_walk_calls(get/remove on intact documents)': stats['registry_walk_calls'],
         'attempts_whose_prior_documents_failed_to_load': stats['setup_failed'],
         'intact_documents_not_loading': stats['intact_not_loading'][:5],
         'documents': stats['docs'], 'cut_by_time_budget': cut, 'samples': stats['samples'],
@@ -998,6 +1061,21 @@ def replay(ctx, rep):
     files = {k: base64.b64decode(v) for k, v in case['files'].items()}
     data = base64.b64decode(case['data'])
     clause = rep.get('signature', {}).get('clause')
+    if case.get('what') == 'registry walk':
+        # random get_resource / remove_resource walks over the intact documents
+        model = common.Model()
+        bad = False
+        with tempfile.TemporaryDirectory(dir=scratch) as d:
+            env = Env(d, case['format'], files, make_mm())
+            for k in range(30):
+                n, probs, corr = registry_scenario(env, model, ctx.rng, 5.0)
+                if probs or corr:
+                    print(f'walk {k} ({n} calls):', probs, corr)
+                    bad = True
+                    break
+        model.close()
+        print('REPRODUCED' if bad else 'not reproduced', '(registry walk)')
+        return 1 if bad else 0
     with tempfile.TemporaryDirectory(dir=scratch) as d:
         env = Env(d, case['format'], files, make_mm())
         r = attempt(env, case['target'], data, case['priors'], 5.0, None)
